@@ -91,6 +91,14 @@ CLAIMED = {
              note=TB + 'Two defects found by refuted statements were repaired in /repo (b807027 foreign control frames, 7b28730 stale receive session); the statements are now proved positively.  Sizes outside 9..223 and the '
                   'per-CTS limit byte of the RTS (ignored by the library) are outside the property.',
              design='6 C10', technique='Coq proof over executable model + extracted-model/implementation correspondence'),
+ 'C04': dict(text='Theorems about one step of the node from an ARBITRARY state, for every group-function reaction satisfying a send-side contract: a listen-only node never calls the driver; a node that is not open calls it '
+                  'only in the Open() call that completes after the 200 ms settle delay (settle_delay from every cold node, both scheduler builds); every step refines an abstract machine in which a frame is handed to SendFrame '
+                  'only in a state where it is entitled (node open, not listen-only, source = current address of a device whose claim is not pending and <= 251, or PGN 60928), everything else the driver sees is a flush of '
+                  'the queue; application sends in the forbidden states return false and leave queue and driver untouched.  Tied to the C++ by correspondence on claim-window histories; oracle independent of the model.',
+             note=TB + 'Open known findings claim-window:queued-frame-flushed / former-address:queued-frame-flushed (D-05): the wire-level reading is machine-checked false (C04_wire_level_refuted) because frames queued earlier are '
+                  'flushed inside the window; wire_level is proved under the hypothesis that the queue holds no such frame.  Hypothesis clock_ok (64-bit clock below 2^63).  Debug modes dm_ClearText/dm_Actisense out of scope.  '
+                  'gf contract proved for the no-op instance.',
+             design='6 C04', technique='Coq refinement proof (node step -> send-entitlement machine) + extracted-model/implementation correspondence'),
  'C02': dict(ready=False, text='rx_no_corruption: for every group-function reaction satisfying a frame contract, every clean node and EVERY operation list (any interleaving, any losses, any number of senders and slots, any clock), each '
                   'non-TP delivery is justified by an increasing run of arrived frames (one first frame, continuation frames with the same PGN/source/destination and consecutive sequence bytes, announced length reached exactly at '
                   'the last frame, payload/priority/addresses taken from them) and no frame justifies two deliveries; runs_are_sent ties such runs to ONE sent message unless 8 messages of the PGN were started in between; '
